@@ -3,7 +3,8 @@
      Op1 o          covered: Tree/NoPanicProofsHistReal.v (every constructor of `op`)
      OpSort h       covered: agent-c14's never_fails_histories_real (Element::sort returns Ok in every such world, for the
      OpSortModel m           std insertion sort of the model) — composed here with the oracle alphabet
-     OpDuplicate / OpLoad / OpSetVersion / OpCheckCompat / OpSerializeFile / OpSerializeElem      PENDING (covered_op2 = false):
+     OpSerializeElem h  covered: Tree/NoPanicProofsSer.v (Element::serialize in a world with H12; the float printer is the oracle)
+     OpDuplicate / OpLoad / OpSetVersion / OpCheckCompat / OpSerializeFile      PENDING (covered_op2 = false):
         the parser under load_buffer is total (C02_load_total), the mask `unwrap` of check_version_compatibility is safe on
         the real tables (C17_unwrap_safe_real), the counter loop of duplicate's copies is total (C13_unique_loop_total);
         no theorem composes them to the whole call, the implementation fuzzer and the per-property harnesses cover these calls. *)
@@ -12,21 +13,21 @@ From AV Require Import Base.Bytes Base.Outcome Hash.HashModel Spec.SpecOps Spec.
   Tree.Heap Tree.Ops Tree.Script Tree.Script2 Tree.Inv Tree.InvProofs Tree.Sort Tree.SortProofsOrder Tree.SortProofsHeap Tree.SortProofsReal.
 From AV Require Import Hash.HashRealElement Hash.HashRealAttr Hash.HashRealEnum.
 From AV Require Import Tree.NoPanic Tree.NoPanicProofsBase Tree.NoPanicProofsCopy2 Tree.NoPanicFloat
-  Tree.NoPanicProofsHist Tree.NoPanicReal Tree.NoPanicProofsHistReal.
+  Tree.NoPanicProofsHist Tree.NoPanicReal Tree.NoPanicProofsHistReal Tree.NoPanicProofsSer.
 Open Scope list_scope.
 Open Scope N_scope.
 
 Definition covered_op2 (o : op2) : bool :=
-  match o with Op1 _ | OpSort _ | OpSortModel _ => true | _ => false end.
+  match o with Op1 _ | OpSort _ | OpSortModel _ | OpSerializeElem _ => true | _ => false end.
 Definition pending_op2 (o : op2) : bool := negb (covered_op2 o).
-Lemma coverage2 o : covered_op2 o = match o with Op1 _ | OpSort _ | OpSortModel _ => true | _ => false end.
+Lemma coverage2 o : covered_op2 o = match o with Op1 _ | OpSort _ | OpSortModel _ | OpSerializeElem _ => true | _ => false end.
 Proof. reflexivity. Qed.
 
 (* the client side of one call of the large alphabet *)
 Definition op2_wf (tab_el tab_en : nametab) (w : world) (o : op2) : Prop :=
   match o with
   | Op1 o1 => op_wf tab_el tab_en w o1 /\ SizeOk w
-  | OpSort h => h < w_next w
+  | OpSort h | OpSerializeElem h => h < w_next w
   | OpSortModel m => m < N.of_nat (List.length (w_models w))
   | _ => True
   end.
@@ -89,6 +90,9 @@ Proof.
                 RootOK l' w E') as (_ & MS).
     destruct (nth_opt_lt (w_models w) (N.to_nat m)) as (x & Hx); [lia|].
     destruct (MS m x Hx) as (w' & Es & _). unfold runs, wbind. unfold m_sort. rewrite Es. unfold wret. eauto.
+  - pose proof (H12_reachableF_real check_fn LATEST root_attrs fmt RootOK l w E) as I.
+    destruct (np_e_serialize RT tab_element tab_attr tab_enum fmt tables_ok12_real w h I WFo) as ([s|e] & w1 & Es);
+      unfold runs, wbind; rewrite Es; unfold wret; eauto.
 Qed.
 
 End Real.
